@@ -263,8 +263,10 @@ def perturb(p, items, rnd):
         i = rnd.randrange(len(items) - 1)
         items[i], items[i + 1] = items[i + 1], items[i]
     else:
-        key = rnd.choice(keys)
-        new = rnd.choice([("pos", "x"), ("occ", key, None if is_flag(p, key) else "v")])
+        new = ("pos", "x")
+        if keys and rnd.random() < 0.5:
+            key = rnd.choice(keys)
+            new = ("occ", key, None if is_flag(p, key) else "v")
         items.insert(rnd.randrange(len(items) + 1), new)
     return items
 
